@@ -6,5 +6,5 @@ Require Import ExtrOcamlBasic.
 From FJ Require Import Model.Train.
 Extraction Language OCaml.
 Cd "../ocaml/gen".
-Extraction "model.ml" fit_data_loop fit_var_loop fit_var_loop_old count_fruitless.
+Extraction "train.ml" fit_data_loop fit_var_loop fit_var_loop_old count_fruitless.
 Cd "../../coq".
